@@ -17,6 +17,15 @@
 //     setopt integrator|disableflags|enableflags|disableactuator <int> , setopt timestep <double>
 //     info                    static parameters of the loaded model (joint layout, activation slots, wrap data)
 //     step                    one mj_step; prints the trace record of that step
+//     stepd [eps]             the same, and the record also carries the velocity-derivative data of that step
+//                             (groups d_*): central differences (default eps 1e-6) of the engine's OWN smooth forces
+//                             qfrc_passive / qfrc_actuator / qfrc_bias (and of the per-term arrays qfrc_damper, qfrc_fluid,
+//                             qfrc_spring, qfrc_gravcomp) with respect to qvel at the pre-step state, taken on a scratch
+//                             copy of mjData with mj_fwdVelocity + mj_fwdActuation under the CURRENT option flags; the
+//                             dense qDeriv that mj_step left behind (the D of the implicit solve), its sparsity pattern,
+//                             the dense M, the 6x6 blocks of mjd_freeMhat for standalone free bodies, and two
+//                             classification aids (mjd_smooth_vel with d->ctrl clamped to ctrlrange; number of
+//                             ellipsoid-fluid geoms whose mjMINVAL guard in mjd_viscous_drag is active)
 //     The trace is taken by ELF symbol interposition: this executable defines mj_forwardSkip, mju_addToScl and
 //     mj_integratePosInd, records their arguments and forwards to the library's definitions (dlsym RTLD_NEXT).
 //     So the record holds the engine's own stage states / derivatives (every mj_forwardSkip call of the step),
@@ -335,12 +344,166 @@ static void certificate(void) {
   free(M); free(Mh);
 }
 
+// ------------------------------------------------------------------------------------------- velocity-derivative data
+// (op `stepd`)  Everything is measured on the engine's own functions; nothing of the derivative code is re-implemented.
+static int want_d = 0, d_have = 0, d_nv = 0, d_ctrlout = 0, d_guard = 0, d_nfree = 0;
+static double d_eps = 1e-6;
+static double *d_Fpas = NULL, *d_Fact = NULL, *d_Fbias = NULL, *d_Aclamp = NULL, *d_M = NULL, *d_freeA = NULL;
+static int* d_freeadr = NULL;
+static double d_Jt[6], d_frc[3];
+static mjData* d_scratch = NULL;
+
+static void d_free_all(void) {
+  free(d_Fpas); free(d_Fact); free(d_Fbias); free(d_Aclamp); free(d_M); free(d_freeA); free(d_freeadr);
+  d_Fpas = d_Fact = d_Fbias = d_Aclamp = d_M = d_freeA = NULL; d_freeadr = NULL;
+  if (d_scratch) { mj_deleteData(d_scratch); d_scratch = NULL; }
+  d_have = 0;
+}
+
+static void dense_from_D(const mjData* dd, double* out) {
+  int nv = (int)m->nv;
+  for (int i = 0; i < nv * nv; i++) out[i] = 0;
+  for (int r = 0; r < nv; r++)
+    for (int k = 0; k < m->D_rownnz[r]; k++) {
+      int adr = m->D_rowadr[r] + k;
+      out[r * nv + m->D_colind[adr]] += dd->qDeriv[adr];
+    }
+}
+
+static double amax(const double* p, int n) {
+  double r = 0;
+  for (int i = 0; i < n; i++) { double a = fabs(p[i]); if (a != a) return INFINITY; if (a > r) r = a; }
+  return r;
+}
+
+// called BEFORE mj_step: finite differences of the forces at the pre-step state (scratch copy; d itself is not touched)
+static void d_prepare(void) {
+  d_free_all();
+  int nv = (int)m->nv, integ = m->opt.integrator;
+  if (!nv || integ == mjINT_RK4) return;
+  d_nv = nv;
+  d_scratch = mj_makeData(m);
+  mjData* d2 = d_scratch;
+  mj_copyData(d2, m, d);
+  mj_forward(m, d2);
+  size_t nn = (size_t)nv * nv;
+  d_Fpas = (double*)calloc(nn, sizeof(double)); d_Fact = (double*)calloc(nn, sizeof(double));
+  d_Fbias = (double*)calloc(nn, sizeof(double)); d_M = (double*)calloc(nn, sizeof(double));
+  d_frc[0] = amax(d2->qfrc_passive, nv); d_frc[1] = amax(d2->qfrc_actuator, nv); d_frc[2] = amax(d2->qfrc_bias, nv);
+  mj_fullM(m, d2, d_M);
+  // 7 force arrays: passive actuator bias | damper fluid spring gravcomp
+  double* fp = (double*)malloc(sizeof(double) * 7 * nv); double* fm = (double*)malloc(sizeof(double) * 7 * nv);
+  for (int t = 0; t < 6; t++) d_Jt[t] = 0;
+  for (int j = 0; j < nv; j++) {
+    double save = d2->qvel[j];
+    for (int sgn = 0; sgn < 2; sgn++) {
+      d2->qvel[j] = sgn ? save - d_eps : save + d_eps;
+      mj_fwdVelocity(m, d2); mj_fwdActuation(m, d2);
+      double* f = sgn ? fm : fp;
+      memcpy(f, d2->qfrc_passive, sizeof(double) * nv); memcpy(f + nv, d2->qfrc_actuator, sizeof(double) * nv);
+      memcpy(f + 2 * nv, d2->qfrc_bias, sizeof(double) * nv); memcpy(f + 3 * nv, d2->qfrc_damper, sizeof(double) * nv);
+      memcpy(f + 4 * nv, d2->qfrc_fluid, sizeof(double) * nv); memcpy(f + 5 * nv, d2->qfrc_spring, sizeof(double) * nv);
+      memcpy(f + 6 * nv, d2->qfrc_gravcomp, sizeof(double) * nv);
+    }
+    d2->qvel[j] = save;
+    for (int r = 0; r < nv; r++) {
+      d_Fpas[r * nv + j] = (fp[r] - fm[r]) / (2 * d_eps);
+      d_Fact[r * nv + j] = (fp[nv + r] - fm[nv + r]) / (2 * d_eps);
+      d_Fbias[r * nv + j] = (fp[2 * nv + r] - fm[2 * nv + r]) / (2 * d_eps);
+      // per-term arrays: damper fluid spring gravcomp -> d_Jt[0..3]; actuator, bias -> d_Jt[4], d_Jt[5]
+      for (int t = 0; t < 4; t++) {
+        double v = fabs((fp[(3 + t) * nv + r] - fm[(3 + t) * nv + r]) / (2 * d_eps));
+        if (v != v) v = INFINITY;
+        if (v > d_Jt[t]) d_Jt[t] = v;
+      }
+    }
+  }
+  free(fp); free(fm);
+  d_Jt[4] = amax(d_Fact, (int)nn); d_Jt[5] = amax(d_Fbias, (int)nn);
+  mj_fwdVelocity(m, d2); mj_fwdActuation(m, d2);
+  // classification aid 1: the analytic derivative with d->ctrl clamped the way mj_fwdActuation clamps it
+  d_ctrlout = 0;
+  for (int i = 0; i < m->nu; i++)
+    if (m->actuator_ctrllimited[i] && !(d2->ctrl[i] >= m->actuator_ctrlrange[2 * i] && d2->ctrl[i] <= m->actuator_ctrlrange[2 * i + 1])) d_ctrlout++;
+  if (d_ctrlout && (integ == mjINT_IMPLICIT || integ == mjINT_IMPLICITFAST)) {
+    double* cs = dup(d2->ctrl, (int)m->nu);
+    for (int i = 0; i < m->nu; i++) if (m->actuator_ctrllimited[i]) {
+      if (d2->ctrl[i] < m->actuator_ctrlrange[2 * i]) d2->ctrl[i] = m->actuator_ctrlrange[2 * i];
+      if (d2->ctrl[i] > m->actuator_ctrlrange[2 * i + 1]) d2->ctrl[i] = m->actuator_ctrlrange[2 * i + 1];
+    }
+    mjd_smooth_vel(m, d2, integ == mjINT_IMPLICIT);
+    d_Aclamp = (double*)calloc(nn, sizeof(double));
+    dense_from_D(d2, d_Aclamp);
+    memcpy(d2->ctrl, cs, sizeof(double) * m->nu); free(cs);
+  }
+  // classification aid 2: ellipsoid-fluid geoms whose mjMINVAL guard of mjd_viscous_drag is active at this state
+  // (dA_coef = pi / max(mjMINVAL, sqrt(proj_num^3 proj_denom)); quantities as documented in engine_derivative.c)
+  d_guard = 0;
+  if (m->opt.viscosity > 0 || m->opt.density > 0)
+    for (int g = 0; g < m->ngeom; g++) {
+      if (!(m->geom_fluid[mjNFLUID * g] > 0)) continue;
+      double sa[3], lv[6], w6[6] = {0, 0, 0, m->opt.wind[0], m->opt.wind[1], m->opt.wind[2]}, lw[6];
+      int b = m->geom_bodyid[g];
+      mju_geomSemiAxes(sa, m->geom_size + 3 * g, (mjtGeom)m->geom_type[g]);
+      mj_objectVelocity(m, d2, mjOBJ_GEOM, g, lv, 1);
+      mju_transformSpatial(lw, w6, 0, d2->geom_xpos + 3 * g, d2->subtree_com + 3 * m->body_rootid[b], d2->geom_xmat + 9 * g);
+      double x = lv[3] - lw[3], y = lv[4] - lw[4], z = lv[5] - lw[5];
+      double a = sa[1] * sa[2], bb = sa[2] * sa[0], c = sa[0] * sa[1];
+      a *= a; bb *= bb; c *= c;
+      double den = a * a * x * x + bb * bb * y * y + c * c * z * z, num = a * x * x + bb * y * y + c * z * z;
+      int degenerate = sa[0] == sa[1] && sa[1] == sa[2];
+      if (!degenerate && (x || y || z) && sqrt(num * num * num * den) < mjMINVAL) d_guard++;
+    }
+  // implicitfast: the 6x6 blocks M - h D of standalone free bodies as the engine assembles them (mjd_freeMhat)
+  d_nfree = 0;
+  if (integ == mjINT_IMPLICITFAST) {
+    d_freeadr = (int*)malloc(sizeof(int) * (m->njnt + 1));
+    d_freeA = (double*)malloc(sizeof(double) * 36 * (m->njnt + 1));
+    mjd_smooth_vel(m, d2, 0);
+    for (int j = 0; j < m->njnt; j++) {
+      double A[36];
+      if (!mjd_freeMhat(m, d2, j, m->opt.timestep, A)) continue;
+      d_freeadr[d_nfree] = m->jnt_dofadr[j];
+      memcpy(d_freeA + 36 * d_nfree, A, sizeof A);
+      d_nfree++;
+    }
+  }
+  mj_deleteData(d_scratch); d_scratch = NULL;
+  d_have = 1;
+}
+
+// called AFTER mj_step
+static void d_print(void) {
+  if (!d_have) { printf(" d_have 1 0"); return; }
+  int nv = d_nv, integ = m->opt.integrator, nn = nv * nv;
+  printf(" d_have 1 1 d_eps 1"); pbits(d_eps);
+  printf(" d_mask %d", nn);
+  { char* mask = (char*)calloc((size_t)nn + 1, 1);
+    for (int r = 0; r < nv; r++) for (int k = 0; k < m->D_rownnz[r]; k++) mask[r * nv + m->D_colind[m->D_rowadr[r] + k]] = 1;
+    for (int i = 0; i < nn; i++) printf(" %d", mask[i]);
+    free(mask); }
+  if (integ == mjINT_IMPLICIT || integ == mjINT_IMPLICITFAST) {
+    double* A = (double*)calloc((size_t)nn + 1, sizeof(double));
+    dense_from_D(d, A);
+    pvec("d_A", A, nn);
+    free(A);
+  }
+  pvec("d_Fpas", d_Fpas, nn); pvec("d_Fact", d_Fact, nn); pvec("d_Fbias", d_Fbias, nn);
+  pvec("d_Jt", d_Jt, 6); pvec("d_frc", d_frc, 3);
+  printf(" d_ctrlout 1 %d d_guard 1 %d", d_ctrlout, d_guard);
+  pvec("d_Aclamp", d_Aclamp, d_Aclamp ? nn : 0);
+  pvec("d_M", d_M, nn);
+  pivec("d_freeadr", d_freeadr, d_nfree);
+  pvec("d_freeA", d_freeA, 36 * d_nfree);
+}
+
 static void op_step(void) {
   free_trace();
   int nq = (int)m->nq, nv = (int)m->nv, na = (int)m->na, nout = (int)m->nout;
   double t0 = d->time;
   double* q0 = dup(d->qpos, nq); double* v0 = dup(d->qvel, nv); double* a0 = dup(d->act, na);
   nwarn = 0;
+  if (want_d) d_prepare();
   tracing = 1;
   mj_step(m, d);
   tracing = 0;
@@ -375,6 +538,8 @@ static void op_step(void) {
   pivec("warnings", wn, mjNWARNING);
   printf(" awake 2 %d %d", (int)d->ntree_awake, (int)m->ntree);
   certificate();
+  if (want_d) d_print();
+  d_free_all();
   printf("\n");
 }
 
@@ -389,6 +554,7 @@ int main(void) {
     if (!strncmp(line, "model ", 6)) {
       jb_armed = 1;
       if (setjmp(jb)) { jb_armed = 0; printf("error %s\n", lasterr); fflush(stdout); continue; }
+      d_free_all();
       if (d) { mj_deleteData(d); d = NULL; }
       if (m) { mj_deleteModel(m); m = NULL; }
       if (spec) { mj_deleteSpec(spec); spec = NULL; }
@@ -429,7 +595,7 @@ int main(void) {
     } else if (!strcmp(op, "NA")) {
       op_na(tok, n);
     } else if (!m || !d) {
-      printf(!strcmp(op, "set") || !strcmp(op, "setopt") || !strcmp(op, "info") || !strcmp(op, "step") || !strcmp(op, "reset")
+      printf(!strcmp(op, "set") || !strcmp(op, "setopt") || !strcmp(op, "info") || !strcmp(op, "step") || !strcmp(op, "stepd") || !strcmp(op, "reset")
              ? "error no model\n" : "bad-op\n");
     } else if (!strcmp(op, "set") && n >= 2) {
       double* p = NULL; int cnt = -1;
@@ -456,7 +622,13 @@ int main(void) {
     } else if (!strcmp(op, "info") && n == 1) {
       op_info();
     } else if (!strcmp(op, "step") && n == 1) {
+      want_d = 0;
       op_step();
+    } else if (!strcmp(op, "stepd") && (n == 1 || n == 2)) {
+      want_d = 1;
+      d_eps = n == 2 ? parse_val(tok[1]) : 1e-6;
+      if (!(d_eps > 0)) { printf("bad-op\n"); want_d = 0; }
+      else { op_step(); want_d = 0; }
     } else {
       printf("bad-op\n");
     }
